@@ -1324,6 +1324,13 @@ def check_access(ctx, cr, s):
         done_names.add(fname)
         want_get = "r" in by_name[fname]
         want_set = "w" in by_name[fname]
+        if not want_get and fname in ("raw_value", "new_with_raw_value", "builder", "new", "default", "build"):
+            # a field without a getter may carry the name of a generated method: the method of that name is then
+            # not its getter (what it can read is judged by the surface rule below, whatever it is called)
+            for pre in ("with_", "set_"):
+                ctx.ob({"C17"}, "%s::%s%s|%s" % (path, pre, fname, "present" if want_set else "absent"), ((pre + fname) in names) == want_set,
+                       "`%s%s` %s for access `%s`" % (pre, fname, "missing" if want_set else "must not exist", f["access"] or "none"))
+            continue
         ctx.ob({"C17"}, "%s::%s|getter_%s" % (path, fname, "present" if want_get else "absent"), (fname in names) == want_get,
                "getter `%s` %s for access `%s`" % (fname, "missing" if want_get else "must not exist", f["access"] or "none"),
                sample={"decl": path, "field": fname, "access": f["access"], "getter": fname in names})
@@ -1966,6 +1973,33 @@ def analyse_positive(ctx, want_props):
             else:
                 ctx.ob({"C16"}, cname + "|expansion_profile_independent", True if ed.get("same") else None, ed.get("why", ""),
                        sample={"crate": cname, "expanded_lines": ed.get("lines"), "dev_vs_release_built_macro": "identical"})
+        if want_props & {"C16", "C01", "C02", "C03", "C07", "C11"} and not cname.startswith("pos_accepted"):
+            pd = (facts.meta.get("profile_diff") or {}).get(cname)
+            if pd is None or not pd.get("compared"):
+                ctx.ob({"C16"}, cname + "|mir_profile_independent", None, "no comparison of the two build profiles for this crate (%s)" % ((pd or {}).get("why") or "nothing compared"))
+            else:
+                by_path = {d["path"]: d for d in decls if d.get("kind") in ("struct", "enum")}
+                for df in pd.get("diffs", []):
+                    props = {"C16"}
+                    part = df.get("part") or {}
+                    oob = any(str(v).startswith(">=") for v in part.values())
+                    nm = df["name"]
+                    if oob:
+                        props.add("C03")
+                    elif nm.startswith(("with_", "set_")):
+                        props.add("C02")
+                    elif by_path.get(df.get("adt"), {}).get("kind") == "enum":
+                        props.add("C07")
+                    else:
+                        props.add("C01")
+                    dd = by_path.get(df.get("adt"))
+                    if dd and dd.get("kind") == "struct" and not is_native(dd["base"]) and nm.startswith(("with_", "set_")):
+                        props.add("C11")
+                    ctx.ob(props, "%s|profile|%s" % (df["fn"], ",".join("%s=%s" % kv for kv in sorted(part.items()))), False,
+                           "`%s` behaves differently when the user's crate is built without debug assertions / overflow checks: outcomes %s vs %s (%s | %s)"
+                           % (df["fn"], df.get("dev"), df.get("rel"), df.get("dev_v", "")[:70], df.get("rel_v", "")[:70]))
+                if not pd.get("diffs"):
+                    ctx.ob({"C16"}, cname + "|mir_profile_independent", True, sample={"crate": cname, "function_partitions_compared": pd["compared"], "differences": 0})
         def judge_decl(d):
             if d.get("skip"):
                 return
